@@ -664,6 +664,14 @@ def call_builtin(self, name, args, kwargs, st, node):
     if name == "iter":
         yield a[0], st
         return
+    if name in ("randint", "random.randint"):
+        lo, hi = self.as_int(a[0], st).z, self.as_int(a[1], st).z
+        self.fork_raise(st, lo > hi, "ValueError")
+        r = fresh("randint", z3.IntSort())
+        st.assume(z3.And(lo <= r, r <= hi))
+        self.assume_log("random.randint(a, b) returns an arbitrary integer of [a, b] (every outcome is considered)")
+        yield int_val(r), st
+        return
     if name in ("time.time", "time"):
         self.assume_log("time.time() returns an arbitrary value; readings are untracked havocs")
         yield Unknown("clock"), st
@@ -1418,6 +1426,11 @@ def call_provider(self, p, args, kwargs, st, node):
         env = dict(zip(spec.get("arg_names", []), argz))
         env["idx"] = int_val(idx)
         st.assume(self.spec_truth(post, State(env, st.heap, st.pc, st.next_ref, st.ghost, st.labels), result=res))
+    if not self.spec and not self.muted:
+        seq = st.ghost.get("$seq", 0) + 1
+        st.ghost = dict(st.ghost)
+        st.ghost["$seq"] = seq
+        st.ghost["$last:prov:" + p.name] = (seq, [int_val(idx)] + list(argz), res)
     yield res, st
 
 
